@@ -10,7 +10,7 @@ EXPLANATION = (
     "(R-C08-cursor) the log offset recorded per outgoing packet id is the forwarded item's own: native_readv's entries keep item.1, Forward.cursor is the item's offset, "
     "push_forwards records (assigned pkid, filter_idx, p.cursor), and retransmission_map keeps the first cursor per filter; "
     "(R-C08-restore) in handle_new_connection ConnAck.session_present = !clean_session && <saved session exists>, the tracker handed to the scheduler is the saved one only on the !clean_session edge "
-    "(Tracker::new on the clean edge), the restoring closure puts back subscriptions and unacked_pubrels, and the restored subscriptions are entered into subscription_map under the new connection id; "
+    "(Tracker::new on the clean edge), the restoring closure puts back subscriptions and unacked_pubrels, and the restored subscriptions are entered into subscription_map under the new connection id and the client is put back (SharedGroup::add_client on shared_subscriptions) into the shared groups handle_disconnection took it out of; "
     "(R-C08-single-home) the graveyard map is written only by save_state / save_metrics / retrieve. "
     "NOT decided: that the rewound cursor is the oldest unacknowledged one (value), delivery of messages accepted while away, retention.")
 ASSUMPTIONS = ["rustc MIR construction is correct"]
